@@ -106,18 +106,30 @@ fn solo(v: &Value) -> Result<CaseReport, String> {
     run_solo(v, report)
 }
 
+/// Offsets beyond 2^31 and 2^32 through one handle (write_all, seek, read_exact, set_len on a
+/// stream of 4 GiB + 9 MiB; sparse backend).
+fn beyond_4gib(_ctx: &Ctx, ev: &mut Value) -> Option<Violation> {
+    match crate::props::scenarios::grow_beyond_4gib() {
+        Ok(n) => {
+            ev["coverage"]["grow_beyond_4gib_steps"] = serde_json::json!(n);
+            None
+        }
+        Err(v) => Some(v),
+    }
+}
+
 pub fn def() -> PropDef {
     PropDef {
         id: "C06",
         level: "exploration",
-        rule: "one stream (initial length from the boundary set), one handle, 1-80 generated calls (read, read_exact, fill_buf+consume, write honouring the returned count, write_all, seek incl. i64/u64 extremes, set_len, flush, len, stream_position, read_to_end into an empty or a non-empty vector, read_to_string, read_until / read_line / skip_until, write_fmt, read_vectored, write_vectored, rewind, seek_relative, close+reopen of the handle); every call sequence is run under max_buffer_size in {0,1,1023,1024,1025,1500,4096,5000,65536,usize::MAX,usize::MAX-1023,default} x {V3,V4} (24 executions per case, counted as evaluations) and every return value is compared with a Vec<u8>+cursor model that does not depend on the configuration, then fresh handle + reopen read-back. Non-trivial = in some configuration the buffer window was written back >=2 times during non-flush calls while dirty (seen as underlying writes by the counting backend) and a read returned bytes written earlier through the same handle; distinct = distinct case JSON.",
+        rule: "one stream (initial length from the boundary set), one handle, 1-80 generated calls (read, read_exact, fill_buf+consume, write honouring the returned count, write_all, seek incl. i64/u64 extremes, set_len, flush, len, stream_position, read_to_end into an empty or a non-empty vector, read_to_string, read_until / read_line / skip_until, write_fmt, read_vectored, write_vectored, rewind, seek_relative, close+reopen of the handle); every call sequence is run under max_buffer_size in {0,1,1023,1024,1025,1500,4096,5000,65536,usize::MAX,usize::MAX-1023,default} x {V3,V4} (24 executions per case, counted as evaluations) and every return value is compared with a Vec<u8>+cursor model that does not depend on the configuration, then fresh handle + reopen read-back. Scenario step: a stream made 4 GiB + 9 MiB long by set_len on a sparse backend, blocks written and read back where the stream offset and the file offset pass 2^31 and 2^32. Non-trivial = in some configuration the buffer window was written back >=2 times during non-flush calls while dirty (seen as underlying writes by the counting backend) and a read returned bytes written earlier through the same handle; distinct = distinct case JSON.",
         assumptions: &["read may return any non-empty prefix of the remaining bytes (std Read contract); position after a failed read_exact is resynchronised from stream_position()"],
         quick_cases: 500,
         thorough_cases: 6000,
         worker,
         solo,
         hang_cpu_s: 60.0,
-        extra: None,
+        extra: Some(beyond_4gib),
         confirm_known: false,
     }
 }
